@@ -10,6 +10,7 @@ import (
 	"runtime"
 	"runtime/debug"
 	"runtime/metrics"
+	"strconv"
 	"strings"
 	"sync/atomic"
 	"syscall"
@@ -22,8 +23,8 @@ type WorkerArgs struct {
 	Seed       uint64
 	Start      int // first index
 	Stride     int
-	N          int // total number of cases
-	Only       int // if >=0 run just that index
+	N          int    // total number of cases
+	Only       int    // if >=0 run just that index
 	CaseFile   string // if set: run this case file instead of generated cases (replay)
 	Out        string // results file (JSON lines)
 	Progress   string // progress file
@@ -97,6 +98,15 @@ func Worker(a WorkerArgs) int {
 		curCaseIdx.Store(int64(idx))
 		t0 := cpuNow()
 		curCaseStartCPU.Store(int64(t0) + 1)
+		if f := os.Getenv("VERIF_TEST_DIE_ONCE"); f != "" && strings.HasPrefix(f, strconv.Itoa(idx)+":") {
+			// self-test of the parent's handling of a worker death that does not reproduce (flag file = "idx:path")
+			if _, err := os.Stat(f[strings.Index(f, ":")+1:]); err != nil {
+				_ = os.WriteFile(f[strings.Index(f, ":")+1:], []byte("x"), 0o644)
+				fmt.Fprintf(prog, "HANG %d cpu=simulated heap=0\n", idx)
+				prog.Sync()
+				os.Exit(3)
+			}
+		}
 		res := safeCheck(eng, a.Prop, a.Tier, c)
 		curCaseStartCPU.Store(0)
 		res.Index = idx
